@@ -1,5 +1,7 @@
 // worker: real goroutines making their first use of shared / recursive / disjoint
 // types on one shared codec, each result compared with the call run alone.
+// Every fifth round the messages also carry a google.protobuf.Any of another type of the
+// universe (nested encode on the same codec, failing half-way for types that do not reflect).
 // Built by run_conc with `go build -race` (no verif tag: only public packages of
 // pentops/j5 are used, and the hook points compile to nothing).
 //
@@ -27,8 +29,9 @@ import (
 )
 
 type call struct {
-	Kind int `json:"kind"` // 1 encode, 2 decode, 3 query
-	Node int `json:"node"`
+	Kind   int `json:"kind"` // 1 encode, 2 decode, 3 query, 4 encode with the Any field holding a message of node Target
+	Node   int `json:"node"`
+	Target int `json:"target,omitempty"`
 }
 
 type outcome struct {
@@ -55,6 +58,16 @@ func doCall(cd *j5codec.Codec, b *cdesc.Built, enc map[int]string, c call) (o ou
 			return outcome{Err: err.Error()}
 		}
 		return outcome{Out: string(out)}
+	case 4:
+		msg, err := b.PopulateWithAny(c.Node, c.Target, 1)
+		if err != nil {
+			return outcome{Err: "populate: " + err.Error()}
+		}
+		out, err := cd.ProtoToJSON(msg)
+		if err != nil {
+			return outcome{Err: err.Error()}
+		}
+		return outcome{Out: string(out)}
 	case 2:
 		msg := b.New(c.Node)
 		if err := cd.JSONToProto([]byte(enc[c.Node]), msg); err != nil {
@@ -76,6 +89,7 @@ func main() {
 	seed := flag.Uint64("seed", 1, "seed")
 	start := flag.Int("start", 0, "first round")
 	rounds := flag.Int("rounds", 200, "one past the last round")
+	show := flag.Bool("show", false, "print the solo outcomes of the calls that carry an Any (stderr)")
 	flag.Parse()
 	enc := json.NewEncoder(os.Stdout)
 	total := 0
@@ -89,6 +103,19 @@ func main() {
 			cdesc.WithBad(r, u)
 			why += "+unsupported"
 		}
+		anyRound := k%5 == 4
+		if anyRound {
+			// messages carry a google.protobuf.Any of another type of the universe, some of which cannot be
+			// reflected: the nested encode on the same codec fails half-way for those
+			u, why = cdesc.GenUniverse(r, fmt.Sprintf("r%dx%da", *seed, k))
+			cdesc.WithBad(r, u)
+			for i := range u.Nodes {
+				if u.Nodes[i].Kind == cdesc.KMsg && !u.Nodes[i].Wrapper {
+					u.Nodes[i].Any = true
+				}
+			}
+			why += "+any"
+		}
 		ms := cdesc.MsgNodes(u)
 		if len(ms) == 0 {
 			continue
@@ -98,10 +125,17 @@ func main() {
 			fmt.Fprintln(os.Stderr, "build:", err)
 			os.Exit(3)
 		}
+		// codecs of a round with Any fields resolve the universe's own types
+		newCodec := func() *j5codec.Codec {
+			if anyRound {
+				return j5codec.NewCodec(j5codec.WithResolver(b.Types()))
+			}
+			return j5codec.NewCodec()
+		}
 		// solo results, each on a fresh codec
 		encoded := map[int]string{}
 		for _, i := range ms {
-			o := doCall(j5codec.NewCodec(), b, nil, call{1, i})
+			o := doCall(newCodec(), b, nil, call{Kind: 1, Node: i})
 			if (o.Err != "" || o.Panic != "") != !u.Good(i) {
 				fmt.Fprintf(os.Stderr, "solo encode of node %d (reflectable: %v): %+v\n", i, u.Good(i), o)
 				os.Exit(3)
@@ -117,12 +151,16 @@ func main() {
 				if r.Chance(60) {
 					node = hot
 				}
-				calls[g] = append(calls[g], call{r.Range(1, 3), node})
+				c := call{Kind: r.Range(1, 3), Node: node}
+				if anyRound && r.Chance(50) {
+					c = call{Kind: 4, Node: node, Target: vh.Pick(r, ms)}
+				}
+				calls[g] = append(calls[g], c)
 			}
 		}
-		shared := j5codec.NewCodec()
+		shared := newCodec()
 		mode := "codec"
-		if k%4 == 3 {
+		if k%4 == 3 && !anyRound {
 			shared = j5codec.Global
 			mode = "global"
 		}
@@ -145,7 +183,7 @@ func main() {
 		for g := range calls {
 			for i, c := range calls[g] {
 				total++
-				want := doCall(j5codec.NewCodec(), b, encoded, c)
+				want := doCall(newCodec(), b, encoded, c)
 				if !got[g][i].same(want) {
 					_ = enc.Encode(map[string]any{"fail": map[string]any{
 						"round": k, "mode": mode, "shape": why, "universe": u, "goroutines": ng, "calls": calls,
@@ -168,10 +206,18 @@ func main() {
 			solo := map[call]outcome{}
 			for _, i := range ms {
 				for kind := 1; kind <= 3; kind++ {
-					solo[call{kind, i}] = doCall(j5codec.NewCodec(), b, encoded, call{kind, i})
+					solo[call{Kind: kind, Node: i}] = doCall(newCodec(), b, encoded, call{Kind: kind, Node: i})
+				}
+				if anyRound {
+					for _, j := range ms {
+						solo[call{Kind: 4, Node: i, Target: j}] = doCall(newCodec(), b, encoded, call{Kind: 4, Node: i, Target: j})
+						if *show {
+							fmt.Fprintf(os.Stderr, "round %d: node %d (good %v) any of %d (good %v): %+v\n", k, i, u.Good(i), j, u.Good(j), solo[call{Kind: 4, Node: i, Target: j}])
+						}
+					}
 				}
 			}
-			storm := j5codec.NewCodec()
+			storm := newCodec()
 			const ngs, iters = 8, 120
 			type miss struct {
 				g, it int
@@ -188,7 +234,12 @@ func main() {
 					defer wg.Done()
 					<-gate
 					for it := 0; it < iters; it++ {
-						c := call{1 + (g+it)%3, ms[(g*7+it)%len(ms)]}
+						c := call{Kind: 1 + (g+it)%3, Node: ms[(g*7+it)%len(ms)]}
+						if anyRound && it%2 == 0 {
+							// every other call carries an Any: of a type that fails half-way through the
+							// nested encode, or of one that encodes
+							c = call{Kind: 4, Node: ms[(g+it/2)%len(ms)], Target: ms[(g*3+it/2)%len(ms)]}
+						}
 						o := doCall(storm, b, encoded, c)
 						if !o.same(solo[c]) && len(misses[g]) < 3 {
 							misses[g] = append(misses[g], miss{g, it, c, o})
